@@ -3,7 +3,8 @@
 1. translate/lu_scale.py reads src/vnacommon_lu.c: which row-scale statement the code contains
    (`max` or `1.0 / max`) selects the `scale_of_max` parameter of the model; the other statements
    the model copies are matched literally; the call sites' determinant / rank tests are matched.
-2. Coq obligations: Lin/LuProofs.v, Lin/LsProofs.v, Properties_C19.v.
+2. Coq obligations: Lin/LuGen*.v (general-n Crout invariant and solves), Lin/LuPivot.v (pivot
+   search, scale invariance), Lin/LuDet3.v, Lin/LuProofs.v, Lin/LsProofs.v, Properties_C19.v.
 3. Correspondence, square systems n = 1..8 (random, row-permuted, row-scaled by 2^-27..2^27,
    graded, rank-deficient, exactly singular; small dyadic entries, exact in binary64):
    LuModel over Q[i] (extracted, ocaml/drv_lu2.ml) against _vnacommon_lu / mldivide / mrdivide /
@@ -366,7 +367,8 @@ def run(ctx):
     ctx.programs = 9
 
     # ------------------------------------------------------------------ 2. proofs
-    vfiles = ["Lin/LuProofs.v", "Lin/LsProofs.v", "Properties_C19.v"]
+    vfiles = ["Lin/LuGenA.v", "Lin/LuGenB.v", "Lin/LuGenC.v", "Lin/LuGenD.v", "Lin/LuGen.v", "Lin/LuPivot.v",
+              "Lin/LuDet3.v", "Lin/LuProofs.v", "Lin/LsProofs.v", "Properties_C19.v"]
     vfiles = [v for v in vfiles if os.path.exists(os.path.join(vplib.COQDIR, v))]
     ok, res = ctx.coq_obligations(["Lin/LsSpec.v", "Lin/LuQI2.v"] + vfiles)
     if not ok:
@@ -423,7 +425,7 @@ def run(ctx):
         cl = cout.strip().split("\n")
         return ml, cl
 
-    nfam = 4 if quick else 24
+    nfam = 6 if quick else 80
     kinds = ["random", "graded"] + list(SING_KINDS)
     cases = []      # dict(kind, rel, n, A, B, Brd, base, full)
     for n in range(1, 9):
@@ -765,6 +767,34 @@ def conv_check(ctx, exe, violation):
                   "vnaconv_%s (n=%d, %s): singular input returns plausible numbers %s" % (f, n, what, xs),
                   {"function": "vnaconv_" + f, "n": n, "input": what, "output_head": str(xs)})
     ctx.traces_validated += len(tags)
+    # a/b -> m reduction through the public API: an exactly singular `a` matrix (missing row or
+    # column, duplicated rows) must be reported through the error path (VNAERR_MATH / EDOM)
+    sing_a = {"zero column 0": "0 0 0x1p-1 0  0 0 0x1p+1 0", "zero column 1": "0x1p+0 0 0 0  0x1p-2 0 0 0",
+              "zero row 0": "0 0 0 0  0x1p-2 0 0x1p+1 0", "zero row 1": "0x1p+0 0 0x1p-1 0  0 0 0 0",
+              "duplicate rows": "0x1p+0 0x1p-1 0x1p-1 0  0x1p+0 0x1p-1 0x1p-1 0", "all zero": "0 0 0 0 0 0 0 0",
+              "regular": "0x1p+0 0 0x1p-1 0  0x1p-2 0 0x1p+1 0"}
+    bmat = "0x1p-3 0 0x1.cp-1 0  0x1.9p-1 0 0x1p-2 0"
+    names = sorted(sing_a)
+    rc, out, err = vplib.sh([exe], input="".join("add_a %s %s\n" % (sing_a[k], bmat) for k in names), timeout=60,
+                            env=ctx.run_env())
+    if rc != 0:
+        sig = vplib.asan_signature(err) or {"kind": "fault", "error": "exit %d" % rc, "function": None}
+        violation(sig, "lu_harness failed on add_a: " + err[-300:], {"stderr": err[-3000:]})
+    else:
+        bad_a = []
+        for k, ln in zip(names, out.strip().split("\n")):
+            ctx.count(("add_a", k))
+            want = "add_a rc=0 callbacks=0 category=none" if k == "regular" else "add_a rc=-1 callbacks=1 category=MATH"
+            if ln.strip() != want:
+                bad_a.append((k, ln.strip()))
+        ctx.obligation("tie:singular 'a' matrix in vnacal_new_add_through is reported as VNAERR_MATH (%d inputs)" % (len(names) - 1),
+                       not bad_a, "; ".join("%s -> %s" % b for b in bad_a))
+        for k, ln in bad_a[:1]:
+            violation({"kind": "singular-unreported", "function": "vnacal_new_add_through", "class": k},
+                      "vnacal_new_add_through with a singular 'a' matrix (%s) is not reported: %s" % (k, ln),
+                      {"function": "vnacal_new_add_through", "type": "T8 2x2, 1 frequency", "a": sing_a[k], "b": bmat,
+                       "observed": ln, "expected": "rc=-1, one error callback, VNAERR_MATH (errno EDOM)"})
+        ctx.traces_validated += len(names)
     # the DESIGN example of D25 (decimal entries; judged by the row-scaling-invariant backward error)
     A = [[(Fraction(1e-8), Fraction(0)), (Fraction(1e8), Fraction(0))], [(Fraction(1), Fraction(0)), (Fraction(1), Fraction(0))]]
     rc, out, err = vplib.sh([exe], input="ztoyn 2 %s\n" % mat_str(A, hx), timeout=60, env=ctx.run_env())
@@ -809,7 +839,7 @@ def ls_check(ctx, drv, exe, run_both, violation, quick):
         shapes += [(rng.randint(n + 1, min(40, 3 * n + 3)), n) for n in (1, 2, 3, 4, 5, 6, 8)]
         shapes += [(7, 3), (12, 5), (40, 10), (40, 15)]
     else:
-        shapes += [(rng.randint(n + 1, 40), n) for n in range(1, 13) for _ in range(4)]
+        shapes += [(rng.randint(n + 1, 40), n) for n in range(1, 13) for _ in range(10)]
         shapes += [(40, 15), (40, 15), (30, 15), (16, 15), (40, 14)]
     cases = []
     for (m, n) in shapes:
